@@ -23,6 +23,8 @@ def _reexec_pinned():
         return
     env = dict(os.environ)
     env.update(PINNED)
+    if os.environ.get("VERIF_HASHSEED_OVERRIDE"):   # determinism self-test: prove independence of the hash seed
+        env["PYTHONHASHSEED"] = os.environ["VERIF_HASHSEED_OVERRIDE"]
     env["MENELAUS_VERIF_PINNED"] = "1"
     env.setdefault("MENELAUS_VERIF", "1")  # hook guard (no hook in /repo needs it today)
     os.execve(sys.executable, [sys.executable] + sys.argv, env)
@@ -53,6 +55,7 @@ def main():
     ap.add_argument("--jobs", type=int, default=int(os.environ.get("VERIF_JOBS", os.cpu_count() or 4)))
     ap.add_argument("--replay")
     ap.add_argument("--selfcheck", action="store_true")
+    ap.add_argument("--digests", type=int, help="print the trace digests of the first N runs of every scenario as JSON (self-test)")
     a = ap.parse_args()
     _import_repo()
     from sim import core
@@ -79,6 +82,8 @@ def main():
     mod = importlib.import_module(f"sim.props.{a.prop.lower()}")
     if a.replay:
         return core.replay(mod, a.replay)
+    if a.digests:
+        return core.print_digests(mod, a.tier, a.seed, max(1, a.jobs), a.digests)
     return core.run_check(mod, a.tier, a.seed, max(1, a.jobs))
 
 
